@@ -2,6 +2,8 @@ import SignaloModel.Proofs.SgProofs
 import SignaloModel.Proofs.BridgeConv
 import SignaloModel.Proofs.ConvProofs
 import SignaloModel.Proofs.SgTableChecks
+import SignaloModel.Proofs.RegConvLinear
+import SignaloModel.Proofs.RegMisc
 /-!
 # C05 — Convolution is an edge-padded FIR; delay shifts by exactly N
 
@@ -10,6 +12,10 @@ The property theorems for C05: `#check` prints each statement, `#print axioms` i
 -/
 open SignaloModel
 
+#check @Registry.normalized_of_sum_zero
+#check @Registry.normalized_sum
+#check @Registry.conv_registry_normalized_const
+#check @Registry.conv_registry_linear
 #check @Registry.conv_registry_correct
 #check @Registry.delay_registry_correct
 #check @Fir.convL_ramp
@@ -24,6 +30,10 @@ open SignaloModel
 #check @Fir.convL_const
 #check @Tables.sg_close
 
+#print axioms Registry.normalized_of_sum_zero
+#print axioms Registry.normalized_sum
+#print axioms Registry.conv_registry_normalized_const
+#print axioms Registry.conv_registry_linear
 #print axioms Registry.conv_registry_correct
 #print axioms Registry.delay_registry_correct
 #print axioms Fir.convL_ramp
